@@ -19,7 +19,7 @@ def register(prop, J):
                     "the wire, ids parameter reference-parsed (each id once), every response entry filed under the caller's own key "
                     "value (abstract equality incl. params, pointer identity for complex keys), nothing lost / duplicated / moved, "
                     "unrequested keys rejected",
-         level_note="batch_get entities carry a marker derived from the position of their key and are compared per key; bytes keys are excluded (KF-C12-bytes-key); the corpus holds one collection keyed by a custom typeref whose registered equality ignores case (v2; an ordinary typeref in the root generation): the same id in another spelling is a duplicate; the same checks run on "
+         level_note="TestC16DamagedKeys: a captured response in which one key of results / statuses / errors lost a required field of its key record must be an error for lenient and strict clients; batch_get entities carry a marker derived from the position of their key and are compared per key; bytes keys are excluded (KF-C12-bytes-key); the corpus holds one collection keyed by a custom typeref whose registered equality ignores case (v2; an ordinary typeref in the root generation): the same id in another spelling is a duplicate; the same checks run on "
                     "root-module bindings (batch-v1)",
          technique="property-based testing (rapid) over generated bindings with wire capture and pointer-identity oracle",
          design_ref="2/C16")
